@@ -362,6 +362,129 @@ pub trait Prop: Sync {
     fn extra(&self) -> J {
         J::Null
     }
+    /// coverage-guided campaigns for the thorough tier: (fuzz target, runs)
+    fn fuzz_plan(&self, _tier: Tier) -> Vec<(&'static str, u64)> {
+        vec![]
+    }
+}
+
+#[derive(Debug, Default)]
+pub struct FuzzOutcome {
+    pub target: String,
+    pub ran: bool,
+    pub skipped_reason: Option<String>,
+    pub executions: u64,
+    pub coverage_edges: u64,
+    pub features: u64,
+    pub corpus: u64,
+    pub violation_replay: Option<String>,
+    pub wall_s: f64,
+}
+
+/// Re-run a saved case in a fresh process; true if it hangs (or fails) again.
+pub fn confirm_hang(prop: &str, path: &str) -> bool {
+    let exe = match std::env::current_exe() {
+        Ok(e) => e,
+        Err(_) => return false,
+    };
+    // the fuzz target is not the check binary: fall back to the harness binary next to /verif
+    let exe = if exe.file_name().map(|n| n == "vcheck").unwrap_or(false) { exe } else { verif_dir().join("harness/target/verif/vcheck") };
+    match std::process::Command::new(exe).arg(prop).arg("replay").arg(path).output() {
+        Ok(o) => matches!(o.status.code(), Some(4) | Some(1)),
+        Err(_) => false,
+    }
+}
+
+/// Run one libFuzzer campaign (cargo +nightly fuzz) bounded by -runs, from a fresh corpus
+/// directory.  Any trouble building or starting it is reported as "skipped", never as a
+/// violation.
+pub fn run_fuzz_campaign(prop: &str, target: &str, runs: u64, seed: u64) -> FuzzOutcome {
+    let t0 = Instant::now();
+    let mut out = FuzzOutcome { target: target.to_string(), ..Default::default() };
+    let fuzz_dir = verif_dir().join("fuzz");
+    let fuzz_dir = if fuzz_dir.join("Cargo.toml").exists() { fuzz_dir } else { PathBuf::from("/verif/fuzz") };
+    let corpus = fuzz_dir.join("corpus").join(format!("{}-{}-{}", prop, target, std::process::id()));
+    let _ = std::fs::remove_dir_all(&corpus);
+    if std::fs::create_dir_all(&corpus).is_err() {
+        out.skipped_reason = Some("cannot create corpus directory".into());
+        return out;
+    }
+    // a few random seeds of different lengths so that libFuzzer starts at full length
+    for (i, len) in [64usize, 512, 2048, 6000].iter().enumerate() {
+        let bytes: Vec<u8> = (0..*len as u64).map(|k| crate::gen::pattern_byte(seed as u32 ^ (i as u32 * 77), k)).collect();
+        let _ = std::fs::write(corpus.join(format!("seed{}", i)), bytes);
+    }
+    let r = std::process::Command::new("cargo")
+        .arg("+nightly")
+        .arg("fuzz")
+        .arg("run")
+        .arg("--fuzz-dir")
+        .arg(&fuzz_dir)
+        .arg(target)
+        .arg(&corpus)
+        .arg("--")
+        .arg(format!("-runs={}", runs))
+        .arg(format!("-seed={}", (seed % 0xffff_fff0) + 1))
+        .arg("-len_control=0")
+        .arg("-max_len=8192")
+        .arg("-print_final_stats=1")
+        .arg(format!("-artifact_prefix={}/", corpus.display()))
+        .env("CARGO_NET_OFFLINE", "true")
+        .env("VERIF_FUZZ_PROP", prop)
+        .output();
+    let _ = std::fs::remove_dir_all(&corpus);
+    out.wall_s = t0.elapsed().as_secs_f64();
+    let r = match r {
+        Ok(r) => r,
+        Err(e) => {
+            out.skipped_reason = Some(format!("cannot start cargo fuzz: {}", e));
+            return out;
+        }
+    };
+    let text = format!("{}\n{}", String::from_utf8_lossy(&r.stdout), String::from_utf8_lossy(&r.stderr));
+    for l in text.lines() {
+        if let Some(v) = l.strip_prefix("stat::number_of_executed_units:") {
+            out.executions = v.trim().parse().unwrap_or(0);
+        }
+        if l.contains(" cov: ") && l.contains(" corp: ") {
+            let f: Vec<&str> = l.split_whitespace().collect();
+            for w in f.windows(2) {
+                match w[0] {
+                    "cov:" => out.coverage_edges = w[1].parse().unwrap_or(out.coverage_edges),
+                    "ft:" => out.features = w[1].parse().unwrap_or(out.features),
+                    "corp:" => out.corpus = w[1].split('/').next().and_then(|x| x.parse().ok()).unwrap_or(out.corpus),
+                    _ => {}
+                }
+            }
+        }
+        if let Some(i) = l.find("HANG-CASE property=") {
+            if let Some(j) = l[i..].find("replay=") {
+                let path = l[i + j + 7..].split_whitespace().next().unwrap_or("").to_string();
+                // confirm in a fresh process before calling it a violation
+                if confirm_hang(prop, &path) {
+                    out!("  failure :: run_on does not return for the saved case (confirmed by a second run)");
+                    out!("VIOLATION property={} replay={}", prop, path);
+                    out.violation_replay = Some(path);
+                } else {
+                    out!("  note: a fuzz case exceeded the hang limit once but completed on replay (machine load?); ignored");
+                }
+            }
+        } else if let Some(i) = l.find("VIOLATION property=") {
+            if let Some(j) = l[i..].find("replay=") {
+                out.violation_replay = Some(l[i + j + 7..].trim().to_string());
+            }
+            out!("{}", l.trim());
+        } else if l.trim_start().starts_with("failure ::") {
+            out!("{}", l);
+        }
+    }
+    if out.executions > 0 || out.violation_replay.is_some() {
+        out.ran = true;
+    } else {
+        let tail: String = text.lines().rev().take(6).collect::<Vec<_>>().into_iter().rev().collect::<Vec<_>>().join(" | ");
+        out.skipped_reason = Some(format!("campaign did not run (nightly fuzz build unavailable?): {}", tail.chars().take(400).collect::<String>()));
+    }
+    out
 }
 
 struct Stats {
@@ -438,10 +561,60 @@ pub fn threads() -> usize {
         .max(1)
 }
 
+// ------------------------------------------------------------------------------------------
+// hang watchdog: a case that runs thousands of times longer than any legitimate case is stuck
+// (a loop that performs no transport I/O cannot be caught by the transport's read budget)
+
+type WatchMap = Mutex<std::collections::HashMap<std::thread::ThreadId, (Instant, String, String)>>;
+static WATCH: std::sync::OnceLock<WatchMap> = std::sync::OnceLock::new();
+static WATCHDOG_STARTED: AtomicBool = AtomicBool::new(false);
+
+pub fn hang_limit_secs() -> u64 {
+    std::env::var("VERIF_HANG_SECS").ok().and_then(|s| s.parse().ok()).unwrap_or(60)
+}
+
+/// `abort_on_hang`: fuzz targets abort (so libFuzzer stops); the check binary exits with code 4,
+/// which ./check confirms by replaying the saved case under a timeout before calling it a violation.
+pub fn start_watchdog(abort_on_hang: bool) {
+    if WATCHDOG_STARTED.swap(true, Ordering::SeqCst) {
+        return;
+    }
+    WATCH.get_or_init(|| Mutex::new(Default::default()));
+    let limit = hang_limit_secs();
+    std::thread::spawn(move || loop {
+        std::thread::sleep(std::time::Duration::from_millis(500));
+        let stuck = {
+            let m = WATCH.get().unwrap().lock().unwrap();
+            m.values().find(|(t, _, _)| t.elapsed().as_secs() >= limit).cloned()
+        };
+        if let Some((t, prop, case)) = stuck {
+            let path = write_failure_file(&prop, &case, &format!("case still running after {} s (typical cases take micro- to milliseconds): run_on does not return", t.elapsed().as_secs()), "hang");
+            out!("HANG-CASE property={} replay={} seconds={}", prop, path.display(), t.elapsed().as_secs());
+            if abort_on_hang {
+                std::process::abort();
+            }
+            std::process::exit(4);
+        }
+    });
+}
+
+fn watch_begin(prop: &str, case_json: &str) {
+    if let Some(m) = WATCH.get() {
+        m.lock().unwrap().insert(std::thread::current().id(), (Instant::now(), prop.to_string(), case_json.to_string()));
+    }
+}
+
+fn watch_end() {
+    if let Some(m) = WATCH.get() {
+        m.lock().unwrap().remove(&std::thread::current().id());
+    }
+}
+
 /// evaluate one case: journal, exec under catch, split failures into known / unknown
 fn eval_case<P: Prop>(p: &P, case: &P::Case, known: &[Known], stats: &Stats, record: bool) -> (Vec<Failure>, bool) {
     let js = serde_json::to_string(case).expect("case serialises");
     JOURNAL.with(|j| *j.borrow_mut() = Some((p.id().to_string(), js.clone())));
+    watch_begin(p.id(), &js);
     let ex = match catch(|| p.exec(case)) {
         Ok(ex) => ex,
         Err(pr) => {
@@ -454,6 +627,7 @@ fn eval_case<P: Prop>(p: &P, case: &P::Case, known: &[Known], stats: &Stats, rec
             ex
         }
     };
+    watch_end();
     JOURNAL.with(|j| *j.borrow_mut() = None);
     if !record {
         let mut unknown = Vec::new();
@@ -506,6 +680,21 @@ fn eval_case<P: Prop>(p: &P, case: &P::Case, known: &[Known], stats: &Stats, rec
     (unknown, ex.nontrivial)
 }
 
+/// One evaluation for a fuzz target: None if the property held (known findings are tolerated),
+/// else the replay file written for the failing case and the failure text.
+pub fn eval_for_fuzz<P: Prop>(p: &P, case: &P::Case) -> Option<(PathBuf, String)> {
+    static KNOWN: std::sync::OnceLock<Vec<Known>> = std::sync::OnceLock::new();
+    let known = KNOWN.get_or_init(load_known);
+    let stats = new_stats();
+    let (unknown, _) = eval_case(p, case, known, &stats, false);
+    if unknown.is_empty() {
+        return None;
+    }
+    let js = serde_json::to_string(case).unwrap();
+    let path = write_failure_file(p.id(), &js, &unknown[0].msg, "fuzz");
+    Some((path, format!("key={} :: {}", unknown[0].key, unknown[0].msg)))
+}
+
 pub fn replay_dir(prop: &str) -> PathBuf {
     verif_dir().join("replays").join(prop)
 }
@@ -519,6 +708,7 @@ fn load_case<C: DeserializeOwned>(path: &Path) -> Result<C, String> {
 
 /// `./check Cxx replay FILE`
 pub fn replay_one<P: Prop>(p: &P, path: &Path) -> i32 {
+    start_watchdog(false);
     let known = load_known();
     let stats = new_stats();
     let case: P::Case = match load_case(path) {
@@ -564,6 +754,7 @@ fn print_known_lines(prop: &str, known: &[Known], stats: &Stats) {
 }
 
 pub fn run<P: Prop>(p: &P, tier: Tier) -> i32 {
+    start_watchdog(false);
     let t0 = Instant::now();
     let seed = verif_seed();
     let known = load_known();
@@ -696,6 +887,24 @@ pub fn run<P: Prop>(p: &P, tier: Tier) -> i32 {
         violations.extend(found.into_inner().unwrap());
     }
 
+    // 4. coverage-guided campaigns (thorough tier)
+    let mut fuzz_reports: Vec<J> = Vec::new();
+    let mut fuzz_execs = 0u64;
+    if violations.is_empty() {
+        for (target, runs) in p.fuzz_plan(tier) {
+            let fo = run_fuzz_campaign(p.id(), target, runs, seed);
+            fuzz_execs += fo.executions;
+            if let Some(rp) = &fo.violation_replay {
+                violations.push((PathBuf::from(rp), vec![Failure { key: "fuzz-campaign".into(), msg: format!("libFuzzer campaign `{}` found a failing case", target) }]));
+            }
+            fuzz_reports.push(json!({
+                "target": fo.target, "ran": fo.ran, "skipped_reason": fo.skipped_reason, "executions": fo.executions,
+                "coverage_edges": fo.coverage_edges, "features": fo.features, "corpus_size": fo.corpus, "wall_s": fo.wall_s,
+                "runs_requested": runs,
+            }));
+        }
+    }
+
     let wall = t0.elapsed().as_secs_f64();
     // evidence
     let evaluations = stats.evaluations.load(Ordering::Relaxed);
@@ -719,6 +928,8 @@ pub fn run<P: Prop>(p: &P, tier: Tier) -> i32 {
         "counters_and_tolerated_observations": notes,
         "known_finding_hits": known_hits,
         "threads": nthreads,
+        "fuzz_campaigns": fuzz_reports,
+        "fuzz_executions": fuzz_execs,
     });
     if let Some(note) = p.exhaustive_note(tier) {
         coverage["exhaustive"] = J::Bool(true);
